@@ -1,6 +1,6 @@
 """Per-property check plans: which model configurations TLC explores and on
 which systems the emitted behaviours are replayed."""
-from .core import Report, tour_stage, walk_stage
+from .core import Report, tour_stage, walk_stage, chunk_stage
 
 ALL4 = ["mem", "bolt", "multimem", "multios"]
 CORE_OPS = {"CreateBucket", "HeadBucket", "DeleteBucket", "ListBuckets", "PutObject", "GetObject", "HeadObject",
@@ -309,4 +309,76 @@ def c16(tier, seed, work):
     return rep
 
 
-PLANS = {"C11": c11, "C16": c16, "C17": c17, "C02": c02, "C05": c05, "C03": c03, "C04": c04, "C13": c13, "C06": c06, "C14": c14}
+def c08(tier, seed, work):
+    rep = Report("C08", tier, seed, level="model_checking")
+    common = dict(view=None, emit=None, invariants=["EmitInv", "Unchanged"], tlc_workers=4)
+    fp = {0, 1, 2, 3}
+    for integ in (True, False):
+        tag = "integrity-on" if integ else "integrity-off"
+        o = "" if integ else "nointegrity"
+        tour_stage(rep, work, tag, "MC_Upload", dict(Integrity=integ, CfgName="plain", FailPoints=fp, LongKeys=True),
+                   ["mem", "bolt", "multimem"], opts=o, **common)
+        tour_stage(rep, work, tag + "-single", "MC_Upload", dict(Integrity=integ, CfgName="single", FailPoints=fp, LongKeys=True),
+                   ["singlemem"], opts=o, **common)
+        # real directories: keys of 1024 bytes are outside the key domain (metadata file name too long)
+        tour_stage(rep, work, tag + "-os", "MC_Upload", dict(Integrity=integ, CfgName="plain", FailPoints=fp, LongKeys=False),
+                   ["multios"], opts=o, **common)
+        tour_stage(rep, work, tag + "-single-os", "MC_Upload", dict(Integrity=integ, CfgName="single", FailPoints=fp, LongKeys=False),
+                   ["singleos"], opts=o, **common)
+    # a small configured metadata limit
+    tour_stage(rep, work, "metalimit-200", "MC_Upload", dict(Integrity=True, CfgName="plain", FailPoints=set(), LongKeys=True),
+               ["mem", "multimem"], opts="metalimit=200", **common)
+    if tier == "thorough":
+        tour_stage(rep, work, "big-bodies", "MC_Upload", dict(Integrity=True, CfgName="plain", FailPoints=fp, LongKeys=False), ALL4,
+                   thorough=True, **common)
+    rep.assumptions += [
+        "metadata classes are 'well under' and 'twice' the limit: what exactly counts towards the limit is implementation-defined",
+        "a body longer than its declared length is generated in process only (not expressible over TCP)",
+        "when an attempt has several defects any of the corresponding refusals is admissible",
+        "a failing body reader may be answered with any error status",
+        "fs backends on a real directory: keys whose flattened metadata file name exceeds NAME_MAX are outside the key domain",
+    ]
+    return rep
+
+
+def c12(tier, seed, work):
+    rep = Report("C12", tier, seed)
+    thorough = tier == "thorough"
+    consts = dict(MaxChunk=3, MaxChunks=3 if thorough else 2, MaxFrag=4, MaxBuf=4)
+    # small scale: every stream x fragment pattern x consumer-buffer pattern, decoder driven directly and end to end
+    chunk_stage(rep, work, "small", dict(consts, MaxFrag=3, MaxBuf=3) if not thorough else consts, ["mem", "multimem"], [1], e2e_every=3)
+    # scaled so that chunks straddle the consumers' buffers (32 KiB io.Copy on fs, one full-size read on mem/bolt)
+    chunk_stage(rep, work, "scaled", dict(MaxChunk=3, MaxChunks=2, MaxFrag=3, MaxBuf=2),
+                ALL4 + ["singlemem"] if thorough else ["mem", "bolt", "multimem", "multios"], [11000] if not thorough else [11000, 350000],
+                e2e_every=4 if not thorough else 2)
+    rep.assumptions += [
+        "cosmetic framing deviations the decoder tolerates (signature text, bytes after a chunk, missing final chunk) are not 'malformed'",
+        "fragment and buffer sizes follow cyclic patterns of length <= 2; the state-machine model covers all fragmentations at small scale",
+    ]
+    return rep
+
+
+def c01(tier, seed, work):
+    rep = Report("C01", tier, seed)
+    thorough = tier == "thorough"
+    ops = {"CreateBucket", "PutObject", "PutMeta", "PutMetaB", "PostObject", "PostMeta", "CopyObject", "GetObject",
+           "HeadObject", "ListObjects", "DeleteObject"}
+    st = dict(invariants=STORE_INVS, properties=["ReadYourWrite", "Frame"])
+    consts = store_consts(Buckets={"bkt1"}, KeySetName="nest2", Bodies={"x1", "x2"}, WithEmpty=True, OpNames=ops, Ghosts=False)
+    for integ, o in ((True, ""), (False, "nointegrity")):
+        tag = "on" if integ else "off"
+        tour_stage(rep, work, "rw-plain-" + tag, "MC_Store", consts, ALL4, opts=o, keys="plain", thorough=thorough, **st)
+        tour_stage(rep, work, "rw-rich-" + tag, "MC_Store", consts, ALL4, opts=o, keys="rich", thorough=thorough, **st)
+        tour_stage(rep, work, "rw-single-" + tag, "MC_Store",
+                   dict(consts, CfgName="single", OpNames=ops - {"CreateBucket"}), ["singlemem", "singleos"], opts=o,
+                   keys="both", thorough=thorough, **st)
+    rep.assumptions += [
+        "bodies: one concrete byte string per (atom, tour) drawn from size classes 1 B .. 64 KiB+1 (thorough: .. 3 MiB), all byte values; "
+        "the empty body is enumerated; 'all bodies' is sampled per class, the structural dimension is enumerated",
+        "returned metadata must include what was sent; additional carried-over metadata is followed, not required",
+        "the ETag a GET shows for multipart-completed objects is not covered here (C06 pins the completion ETag)",
+    ]
+    return rep
+
+
+PLANS = {"C11": c11, "C01": c01, "C12": c12, "C08": c08, "C16": c16, "C17": c17, "C02": c02, "C05": c05, "C03": c03, "C04": c04, "C13": c13, "C06": c06, "C14": c14}
